@@ -25,6 +25,7 @@ func checkC03(w *World, r *Report) {
 	})
 	errorIsRule(w, r, "C03.is")
 	droppedErrorRule(w, r, "C03.checked-first")
+	loopErrorRule(w, r, "C03.loop-errors", func(fn *ssa.Function) bool { return runtimePkg(fnPkgPath(fn)) })
 	r.rule("C03.once", "the value of the try body and of the catch handler is returned / continued as a form exactly once: no result of an evaluating call flows back into the evaluator (shared with C01.once)")
 	r.rule("C03.finally-dom", "the finally evaluation is registered (defer) exactly once, outside any inner loop, in a block that dominates every exit of the try region reachable after the body has run")
 	r.rule("C03.finally-pure", "the deferred finally closure stores to no result variable of EVAL and discards the results of the body helper")
@@ -280,6 +281,7 @@ func checkC03(w *World, r *Report) {
 	}
 	ruleObject(m, r, e, reg)
 	tryShapeRule(m, r)
+	catchPresentRule(m, r, "C03.delivered")
 	recoverDirectRule(w, r, "C03.recover-direct")
 	constFormatRule(w, r, "C03.const-format")
 	r.rule("C03.panic-conversion", "every adapter of the reflective binder starts with a deferred handler that calls recover() itself and converts the panic into an error that wraps the original (so a panicking builtin is delivered to catch like a returned error)")
@@ -930,8 +932,11 @@ var errDecoBusy = map[*ssa.Function]bool{}
 // errDecorator: fn is an unexported module function with one error parameter and one error result all of whose
 // returns derive from that parameter (it only positions / rewords the error). Returns the parameter's index.
 func errDecorator(fn *ssa.Function) (int, bool) {
-	if fn == nil || len(fn.Blocks) == 0 || !inModule(fn) || fn.Parent() != nil || fn.Object() == nil || fn.Object().Exported() || errDecoBusy[fn] {
+	if fn == nil || len(fn.Blocks) == 0 || !inModule(fn) || errDecoBusy[fn] {
 		return 0, false
+	}
+	if fn.Parent() == nil && (fn.Object() == nil || fn.Object().Exported()) {
+		return 0, false // (a function literal called where it is defined is as private as an unexported function)
 	}
 	res := fn.Signature.Results()
 	if res.Len() != 1 || !isErrorType(res.At(0).Type()) {
@@ -1391,6 +1396,31 @@ func checkC12(w *World, r *Report) {
 		}
 	}
 	r.check(okTest && nTrue >= 1, "C12.flag", m.isMacroCall, "macro test", m.isMacroCall.Pos(), "true only as the value of GetMacro()", "the macro test can be true for a value whose macro flag is not set")
+	// only a list is a call: a vector (or any other sequence) headed by a macro's name is data and stays as it is
+	r.rule("C12.list-only", "the macro test answers anything but false only where its form is known to be a List: a vector, set or hash-map whose first element names a macro is not a macro call (vectors stay vectors; macroexpand stops at them)")
+	{
+		listT := w.ByPath[modPath+"/types"].Types.Scope().Lookup("List").Type()
+		var formP *ssa.Parameter
+		for _, p := range m.isMacroCall.Params {
+			if isMalType(p.Type()) {
+				formP = p
+			}
+		}
+		nlo := 0
+		for _, rt := range m.returns(m.isMacroCall) {
+			ret, v := rt[0].(*ssa.Return), rt[1].(ssa.Value)
+			if c, ok := v.(*ssa.Const); ok && c.Value != nil && !constant.BoolVal(c.Value) {
+				continue
+			}
+			nlo++
+			okList, _ := false, ""
+			if formP != nil {
+				okList, _ = e.hasType(formP, listT, ret.Block())
+			}
+			r.check(okList, "C12.list-only", m.isMacroCall, "macro test answered for a form", ret.Pos(), "the form is a List here", "the macro test can answer true for a form that is not known to be a list (a vector or set whose first element names a macro): such a form is expanded as if it were a call, so a template that yields a vector does not give that vector")
+		}
+		r.floor("C12.list-only", "answers of the macro test other than false", nlo, 1)
+	}
 	// application region does not look at the flag
 	okApp := true
 	for b := range m.defaultRegion {
@@ -1519,7 +1549,7 @@ func checkC12(w *World, r *Report) {
 				continue
 			}
 			// the value is a form (the loop-carried form or an expansion), not the result of an evaluation
-			isForm := v == ssa.Value(m.astPhi)
+			isForm := m.isLoopForm(v)
 			if ex, ok := v.(*ssa.Extract); ok {
 				if c, ok := ex.Tuple.(*ssa.Call); ok && c.Call.StaticCallee() == m.macroexpand {
 					isForm = true
@@ -1684,6 +1714,35 @@ func ruleQQ(m *evalModel, r *Report, e *Engine) {
 		}
 	}
 	r.check(okTags, "C12.names", m.quasiquote, "tags tested by the transform", m.quasiquote.Pos(), fmt.Sprintf("%v = the reader's symbols for ~ and ~@ %v", keysOfPos(tested), readerTags), fmt.Sprintf("the transform tests %v but the reader generates %v", keysOfPos(tested), readerTags))
+	// a tag is recognised by equality of the head symbol's name, never by a part of it
+	r.rule("C12.tag-equality", "the quasiquote transform and the functions it is built from compare names as whole strings: no prefix, suffix, substring or case-folding match (strings.HasPrefix, HasSuffix, Contains, Index, EqualFold ...) is applied there, so a list headed by a symbol that merely begins with unquote is returned literally")
+	{
+		nte := 0
+		seenT := map[*ssa.Function]bool{}
+		for _, root := range []*ssa.Function{m.quasiquote, m.qqLoop} {
+			for _, f := range w.withPkgHelpers(root) {
+				if seenT[f] || (m.isCore(f) && f != m.quasiquote && f != m.qqLoop) {
+					continue
+				}
+				seenT[f] = true
+				nte++
+				for _, b := range f.Blocks {
+					for _, in := range b.Instrs {
+						c, ok := in.(*ssa.Call)
+						if !ok || c.Call.StaticCallee() == nil || fnPkgPath(c.Call.StaticCallee()) != "strings" {
+							continue
+						}
+						switch c.Call.StaticCallee().Name() {
+						case "HasPrefix", "HasSuffix", "Contains", "ContainsAny", "ContainsRune", "Index", "IndexByte", "IndexAny", "LastIndex", "EqualFold", "TrimPrefix", "TrimSuffix", "ToLower", "ToUpper", "Fields", "Split", "Cut":
+							r.bad("C12.tag-equality", f, "partial match of a name in the quasiquote transform", c.Pos(), "strings."+c.Call.StaticCallee().Name()+" decides whether a list is an unquote or splice-unquote form: a list whose head symbol only resembles the tag (unquoted, unquote-later, splice-unquote-all) is substituted or spliced instead of being returned literally")
+						}
+					}
+				}
+			}
+		}
+		r.add("C12.tag-equality", nil, "functions of the quasiquote transform", token.NoPos, "ok", fmt.Sprintf("%d functions examined", nte))
+		r.floor("C12.tag-equality", "functions of the quasiquote transform", nte, 2)
+	}
 	// dispatch types of quasiquote
 	typesTested := map[string]bool{}
 	for _, b := range m.quasiquote.Blocks {
@@ -1968,7 +2027,13 @@ func checkC18(w *World, r *Report) {
 			}
 		}
 	}
-	r.floor("C18.phi", "merges after stepping code", np, 1)
+	if m.astCell == nil {
+		r.floor("C18.phi", "merges after stepping code", np, 1)
+	} else {
+		// the evaluator's variables are kept in cells: there are no merges to look at, and a store into
+		// such a cell from stepping code is an effect C18.effects reports
+		r.add("C18.phi", nil, "merges after stepping code", token.NoPos, "ok", fmt.Sprintf("%d (the form is kept in a cell; assignments in stepping code are covered by C18.effects)", np))
+	}
 	// params of the helper functions must not be reassigned inside stepping code: covered by the phi rule
 	// flags private
 	nf := 0
@@ -2070,11 +2135,11 @@ func checkC18(w *World, r *Report) {
 			// form: the value that flows to the header phi from the guard block
 			var formAtBottom ssa.Value
 			for i, p := range m.header.Preds {
-				if p == guardBlock {
+				if p == guardBlock && m.astPhi != nil {
 					formAtBottom = m.astPhi.Edges[i]
 				}
 			}
-			okArgs = ec.ast == formAtBottom && m.isCurrentScope(ec.env)
+			okArgs = (ec.ast == formAtBottom || (m.astCell != nil && m.isLoopForm(ec.ast))) && m.isCurrentScope(ec.env)
 			if m.envCell == nil && m.envPhi != nil {
 				// not spilled: exactly the value the next iteration would start from
 				for i, p := range m.header.Preds {
@@ -2124,7 +2189,7 @@ func checkC18(w *World, r *Report) {
 				continue
 			}
 			nc++
-			okA := len(c.Call.Args) == 2 && c.Call.Args[0] == ssa.Value(m.astParam) && m.isCurrentScope(c.Call.Args[1]) && !m.header.Dominates(b)
+			okA := len(c.Call.Args) == 2 && m.isIncomingForm(c.Call.Args[0]) && m.isCurrentScope(c.Call.Args[1]) && !m.header.Dominates(b)
 			r.check(okA, "C18.callback-args", m.EVAL, "arguments of the callback", c.Pos(), "the incoming form and the scope it is about to be evaluated in, before the loop", "the callback is handed something other than EVAL's incoming form and scope")
 		}
 	}
@@ -2226,6 +2291,9 @@ func engineRule(w *World, r *Report, e *Engine) {
 		}
 	}
 	r.add("C18.reentrant", nil, "calls made under a lock in package debugger", token.NoPos, "info", fmt.Sprintf("%d call(s) made while a lock is held", nre))
+	// "the callback is only ever handed forms together with the scope": a scope gives out values and accepts
+	// definitions through its methods - its table of bindings stays its own, so displaying a scope cannot rebind
+	tableEscapeRule(w, r, "C18.scope-table")
 	r.rule("C18.engine", "in package debugger the form handed to the Stepper callback never flows into the form argument of EVAL / REPL / Apply (the engine evaluates only expressions the user typed)")
 	var stepper *ssa.Function
 	for _, fn := range w.pkgFuncs("debugger") {
@@ -2473,10 +2541,41 @@ func tryShapeRule(m *evalModel, r *Report) {
 			if !ok || !m.formSplitter(c.Call.StaticCallee()) || doneSplit[c.Call.StaticCallee()] {
 				continue
 			}
+			whole := false
 			for i, a := range c.Call.Args {
 				if canonVal(m.e, a) == form {
+					whole = true
 					doneSplit[c.Call.StaticCallee()] = true
 					scan(c.Call.StaticCallee(), func(*ssa.BasicBlock) bool { return true }, fmt.Sprintf("p%d", i))
+				}
+			}
+			if !whole {
+				// a helper that is handed one clause: its slices, with the arguments of this call put in for
+				// its parameters, are held against the same grammar
+				callee := c.Call.StaticCallee()
+				for _, hb := range callee.Blocks {
+					for _, hin := range hb.Instrs {
+						sl, ok := hin.(*ssa.Slice)
+						if !ok || !lispContainer(sl.X.Type()) {
+							continue
+						}
+						cs := canonVal(m.e, sl)
+						for i := len(c.Call.Args) - 1; i >= 0; i-- {
+							cs = strings.ReplaceAll(cs, fmt.Sprintf("p%d", i), canonVal(m.e, c.Call.Args[i]))
+						}
+						X := form + ".(types.List).Val"
+						if !strings.Contains(cs, X) && !strings.HasPrefix(cs, "φ") {
+							continue
+						}
+						n++
+						okShape := false
+						for _, l := range []string{X + "[len(" + X + ")-1]", X + "[len(" + X + ")-2]", X + "[1]", X + "[2]", "φ"} {
+							if cs == l+".(types.List).Val[2:]" || cs == l+".(types.List).Val[1:]" {
+								okShape = true
+							}
+						}
+						r.check(okShape, "C03.shape", m.EVAL, "operands taken for a part of the try form by "+callee.Name(), c.Pos(), cs, "the slice "+cs+" does not match the grammar of the try form: the catch symbol or a handler form is dropped or misplaced")
+					}
 				}
 			}
 		}
@@ -2861,9 +2960,27 @@ func errorIsRule(w *World, r *Report, rule string) {
 		return
 	}
 	n, cmp := 0, false
+	// the thrown object: the field the ErrorValue accessor returns, read through the accessor or directly
+	thrown, eng := "", newEngine(w)
+	if ev := w.Fn("lisperror", "(LispError).ErrorValue"); ev != nil {
+		if cs := eng.accessorCases(ev); len(cs) == 1 && !cs[0].isNil {
+			thrown = cs[0].path
+		}
+	}
 	isEV := func(v ssa.Value) bool {
-		c, ok := unboxed(v).(*ssa.Call)
-		return ok && c.Call.StaticCallee() != nil && c.Call.StaticCallee().Name() == "ErrorValue"
+		v = unboxed(v)
+		if c, ok := v.(*ssa.Call); ok && c.Call.StaticCallee() != nil && c.Call.StaticCallee().Name() == "ErrorValue" {
+			return true
+		}
+		k := eng.keyOf(v)
+		if thrown == "" || k.Root == nil || !strings.HasSuffix(k.Path, thrown) {
+			return false
+		}
+		if rest := strings.TrimSuffix(k.Path, thrown); rest != "" {
+			return strings.HasSuffix(rest, ".LispError)") // the field of an error asserted to be a LispError
+		}
+		_, name, ok := w.namedStruct(k.Root.Type())
+		return ok && name == "LispError"
 	}
 	for _, f := range w.withPkgHelpers(is) {
 		for _, b := range f.Blocks {
@@ -2969,4 +3086,165 @@ func droppedErrorRule(w *World, r *Report, rule string) {
 		}
 	}
 	r.floor(rule, "success returns after fallible calls", n, 20)
+}
+
+// catchPresentRule: whether a thrown value is delivered to the handler is decided by the presence of the
+// catch clause alone. Where the try region tests a part of the split form against nil and answers the
+// error itself on the nil side, that part is never nil on a path through a catch clause: a clause with an
+// empty handler is still a catch clause (the value is caught and the form yields nil).
+func catchPresentRule(m *evalModel, r *Report, rule string) {
+	r.rule(rule, "a thrown value reaches the handler whenever the try form has a catch clause: a value of the split form whose nil-ness decides between running the handler and returning the error is assigned, on every path through a catch clause, something that is never nil (an empty handler is a handler)")
+	reg, ok := m.regions["try"]
+	if !ok {
+		return
+	}
+	fn := m.EVAL
+	underCatch := func(b *ssa.BasicBlock) bool {
+		for _, d := range fn.Blocks {
+			if iff := blockIf(d); iff != nil && reg[d] {
+				if _, s, ok := strEq(iff.Cond); ok && s == "catch" && edgeDominates(d, 0, b) {
+					return true
+				}
+			}
+		}
+		return false
+	}
+	var mayBeNil func(v ssa.Value, depth int) ssa.Value
+	mayBeNil = func(v ssa.Value, depth int) ssa.Value {
+		if depth > 5 {
+			return nil
+		}
+		switch x := v.(type) {
+		case *ssa.Const:
+			if x.Value == nil {
+				return x
+			}
+		case *ssa.Phi:
+			for _, ed := range x.Edges {
+				if c := mayBeNil(ed, depth+1); c != nil {
+					return c
+				}
+			}
+		case *ssa.Call:
+			callee := x.Call.StaticCallee()
+			if callee == nil || !inModule(callee) || len(callee.Blocks) == 0 || callee.Signature.Results().Len() != 1 {
+				return nil
+			}
+			for _, b := range callee.Blocks {
+				if ret, ok := b.Instrs[len(b.Instrs)-1].(*ssa.Return); ok {
+					if c := mayBeNil(resolveRet(ret.Results[0]), depth+1); c != nil {
+						return ret.Results[0]
+					}
+				}
+			}
+		}
+		return nil
+	}
+	n := 0
+	for _, d := range fn.Blocks {
+		iff := blockIf(d)
+		if iff == nil || !reg[d] {
+			continue
+		}
+		bo, ok := iff.Cond.(*ssa.BinOp)
+		if !ok || (bo.Op != token.EQL && bo.Op != token.NEQ) || !isNilConst(bo.Y) || isErrorType(bo.X.Type()) {
+			continue
+		}
+		if _, isIface := bo.X.Type().Underlying().(*types.Interface); !isIface {
+			continue
+		}
+		nilEdge := 0
+		if bo.Op == token.NEQ {
+			nilEdge = 1
+		}
+		// the nil side answers with the error
+		propagates := false
+		seen := map[*ssa.BasicBlock]bool{}
+		stack := []*ssa.BasicBlock{d.Succs[nilEdge]}
+		for len(stack) > 0 {
+			b := stack[len(stack)-1]
+			stack = stack[:len(stack)-1]
+			if seen[b] || !reg[b] {
+				continue
+			}
+			seen[b] = true
+			if ret, ok := b.Instrs[len(b.Instrs)-1].(*ssa.Return); ok && len(ret.Results) > 0 {
+				if ev := resolveRet(ret.Results[len(ret.Results)-1]); isErrorType(ev.Type()) && !isNilConst(ev) {
+					propagates = true
+				}
+			}
+			stack = append(stack, b.Succs...)
+		}
+		if !propagates {
+			continue
+		}
+		n++
+		for _, p := range m.e.producers(bo.X, map[ssa.Value]bool{}, 0) {
+			in, ok := p.(ssa.Instruction)
+			if !ok || in.Parent() != fn || !underCatch(in.Block()) {
+				continue
+			}
+			c := mayBeNil(p, 0)
+			r.check(c == nil, rule, fn, "handler part assigned in a catch clause", p.Pos(), "never nil", "the value whose nil-ness decides whether the error is caught ("+describeVal(m.e, bo.X, 0)+") can be nil although the form has a catch clause ("+describeVal(m.e, p, 0)+" may return nil): a catch clause with an empty handler is taken for no catch clause, and the thrown value passes the nearest catch")
+		}
+	}
+	r.floor(rule, "nil tests deciding between handler and propagation", n, 1)
+}
+
+// loopErrorRule: an error obtained in one lap of a loop is examined in the loop. Where the error result of a
+// call made inside a loop is only carried round the loop (it feeds a variable of the loop header) and neither
+// it nor that variable is tested against nil inside the loop, the next lap's call overwrites it: of all the
+// elements only the last one's failure is noticed, the others are silently skipped.
+func loopErrorRule(w *World, r *Report, rule string, in func(*ssa.Function) bool) {
+	r.rule(rule, "the error result of a call made inside a loop is tested inside that loop (itself, or the loop variable it is assigned to): it is never just carried into the next iteration, where the next call's result replaces it unexamined")
+	n := 0
+	for _, fn := range w.Funcs {
+		if isTestFunc(w, fn) || len(fn.Blocks) == 0 || !in(fn) {
+			continue
+		}
+		for _, l := range naturalLoops(fn) {
+			blocks := loopBlocks(l)
+			tested := func(v ssa.Value) bool {
+				for b := range blocks {
+					if iff := blockIf(b); iff != nil {
+						for _, a := range condsOf(nil, iff.Cond, true) {
+							if bo, ok := a.v.(*ssa.BinOp); ok && (bo.Op == token.EQL || bo.Op == token.NEQ) && isNilConst(bo.Y) && bo.X == v {
+								return true
+							}
+						}
+					}
+				}
+				return false
+			}
+			for b := range blocks {
+				for _, ins := range b.Instrs {
+					c, ok := ins.(*ssa.Call)
+					if !ok {
+						continue
+					}
+					callee := c.Call.StaticCallee()
+					if callee == nil || !inModule(callee) || hasErrorResult(callee) < 0 || callee.Signature.Results().Len() < 2 {
+						continue
+					}
+					errEx := extractOf(c, hasErrorResult(callee))
+					if errEx == nil {
+						continue
+					}
+					n++
+					for _, ref := range *errEx.Referrers() {
+						phi, ok := ref.(*ssa.Phi)
+						if !ok || phi.Block() != l.header {
+							continue
+						}
+						if tested(errEx) || tested(phi) {
+							continue
+						}
+						r.bad(rule, fn, "error of "+describeCall(nil, c, 0)+" carried round the loop", c.Pos(), "the error this call returns in one iteration is only stored for later: the call of the next iteration overwrites it before anything looks at it, so a failure on any element but the last goes unnoticed and that element is skipped (a wrong value instead of an error)")
+					}
+				}
+			}
+		}
+	}
+	r.add(rule, nil, "calls with an error result inside loops", token.NoPos, "ok", fmt.Sprintf("%d examined", n))
+	r.floor(rule, "calls with an error result inside loops", n, 3)
 }
